@@ -550,3 +550,23 @@ _WIDENED = {
 }
 for _id, _txt in _WIDENED.items():
     CHECKS[_id]["rule"] = CHECKS[_id]["rule"].rstrip() + " Widened later: " + _txt
+
+# widenings of the sixth seeding round (DESIGN.md section 9f), appended to the rule texts
+_R6 = {
+    "C03": "Tombstone writes carry a count one time in three (3, 5 = deleted; 2, 4 = restored); one id of the pool contains a single quote.",
+    "C05": "Tombstone writes carry a count one time in three (3, 5 = deleted; 2, 4 = restored); one id of the pool contains a single quote "
+           "(regress TestRegressQuoteInIDs: nodes and children with a quote in id or parent are read back; a quote in a request does not widen the answer).",
+    "C06": "Tombstone writes carry a count one time in three (3, 5 = deleted; 2, 4 = restored); one id of the pool contains a single quote.",
+    "C08": "List points are written densely and shrunk from the tail by 1-3 tombstoned points of one batch in any key order (the shape "
+           "DiffPoints produces; decode.go does not claim complete trimming for deletions spread over several merges); map entries are "
+           "tombstoned one time in four.",
+    "C10": "One Diff/Merge step in five uses an 'after' that is 'before' with node-point slices cut by re-slicing (shared backing arrays).",
+    "C11": "The prior value's child slice also comes with 1-3 elements of spare capacity holding stale children.",
+    "C12": "Totality seeds include 'log' serial packets (text without check sum, with or without trailing NUL, also empty) and "
+           "empty-payload packets of the subjects log, ack, phr, p.abc and a 16-byte subject.",
+    "C14": "A quarter of the date-list entries name no calendar day but would roll over onto a nearby one (yyyy-02-29, -04-31, -13-01, -00); "
+           "the reference compares texts, so no day matches them.",
+    "C15": "One case in six continues one branch as a chain of 6-10 further levels; cross references carry tombstones 0-3.",
+}
+for _k, _v in _R6.items():
+    CHECKS[_k]["rule"] += " Since round 6: " + _v
